@@ -227,6 +227,15 @@ def write_replay(prop, seed, n, payload):
     d = os.path.join(VERIF, 'replays', prop)
     os.makedirs(d, exist_ok=True)
     p = os.path.join(d, '%s-%s.json' % (seed, n))
+    # embed the work files the ops mention (small ones), so that the replay is self-contained
+    if CURRENT_WORK:
+        files = dict(payload.get('files') or {})
+        for op in payload.get('ops', []):
+            for tok in op.split():
+                for part in tok.split(','):
+                    if part.startswith(CURRENT_WORK) and os.path.isfile(part) and os.path.getsize(part) <= (4 << 20):
+                        files[os.path.relpath(part, CURRENT_WORK)] = open(part, 'rb').read().hex()
+        if files: payload['files'] = files
     if CURRENT_WORK:
         payload = json.loads(json.dumps(payload, default=str).replace(CURRENT_WORK, '@WORK@'))
     json.dump(payload, open(p, 'w'), indent=1, default=str)
@@ -346,6 +355,7 @@ def standard_run(prop, modules, gen_cases, tier, seed, replay, assumptions, rule
             if replay_setup:
                 replay_setup(ctx, rp)
             for name, hx in (rp.get('files') or {}).items():
+                os.makedirs(os.path.dirname(os.path.join(work, name)), exist_ok=True)
                 open(os.path.join(work, name), 'wb').write(bytes.fromhex(hx))
             for line in rp.get('ops', []):
                 i, _, op = line.partition(' ')
@@ -368,12 +378,13 @@ def standard_run(prop, modules, gen_cases, tier, seed, replay, assumptions, rule
             recs += r1; errs += e2
         if post:
             post(recs, ctx)
+        dist = {}
+        for r in recs:
+            k = str(r['meta'].get('kind', '?')) + ':' + r['impl'].split(' ')[0]
+            dist[k] = dist.get(k, 0) + 1
+        samples = [dict(op=r['op'][:400].replace(work, '@WORK@'), impl=r['impl'][:300], model=r['model'][:300])
+                   for r in recs[:: max(1, len(recs) // 12)]][:12]
+        return finish(prop, tier, seed, t0, proof, recs, errs, load_known(prop), rule, samples, dist,
+                      assumptions, nontrivial=nontrivial, classify=classify, extra_cov=extra_cov)
     finally:
         shutil.rmtree(work, ignore_errors=True)
-    dist = {}
-    for r in recs:
-        k = str(r['meta'].get('kind', '?')) + ':' + r['impl'].split(' ')[0]
-        dist[k] = dist.get(k, 0) + 1
-    samples = [dict(op=r['op'][:400], impl=r['impl'][:300], model=r['model'][:300]) for r in recs[:: max(1, len(recs) // 12)]][:12]
-    return finish(prop, tier, seed, t0, proof, recs, errs, load_known(prop), rule, samples, dist,
-                  assumptions, nontrivial=nontrivial, classify=classify, extra_cov=extra_cov)
